@@ -25,8 +25,11 @@ is any list of messages (`Op`), rejected messages leave the state unchanged.
 The only hypothesis carried by Part A is that fewer than 2^64 orders are created (the uint64
 counter does not wrap).
 -/
-import PvProofs.Lemmas.ExrecRun
+import PvProofs.Lemmas.ExrecAux
 import PvProofs.Lemmas.ExrecPaging
+import PvProofs.Lemmas.ExrecScan
+import Mathlib.Data.List.Perm.Subperm
+import Mathlib.Data.List.Nodup
 
 namespace PvProofs.C13
 open PvModel.Exrec PvProofs.Exrec
@@ -65,30 +68,6 @@ theorem inv_init : Inv init := by
     rw [hk]; simp [init]
   · simp [init]
 
-/-- one step of a history: invariant kept, counter grows by at most one -/
-theorem inv_step {st : State} {op : Op} (hinv : Inv st) (hb : (getLastOrderID st.kv).toNat + 1 < 2 ^ 64) :
-    Inv (step st op) ∧ (getLastOrderID (step st op).kv).toNat ≤ (getLastOrderID st.kv).toNat + 1 ∧
-      (getLastOrderID st.kv).toNat ≤ (getLastOrderID (step st op).kv).toNat := by
-  unfold step
-  cases h : apply st op with
-  | none => exact ⟨hinv, Nat.le_succ _, Nat.le_refl _⟩
-  | some pr =>
-    obtain ⟨st', r⟩ := pr
-    obtain ⟨hi, hr⟩ := apply_inv hinv hb h
-    show Inv st' ∧ (getLastOrderID st'.kv).toNat ≤ (getLastOrderID st.kv).toNat + 1 ∧
-      (getLastOrderID st.kv).toNat ≤ (getLastOrderID st'.kv).toNat
-    refine ⟨hi, ?_⟩
-    have h1 : (getLastOrderID st.kv + 1).toNat = (getLastOrderID st.kv).toNat + 1 := by
-      rw [UInt64.toNat_add]
-      have : (1 : UInt64).toNat = 1 := rfl
-      rw [this]; omega
-    cases r with
-    | orderId id =>
-      obtain ⟨rfl, h2⟩ := hr
-      rw [h2, h1]; omega
-    | none => simp only [ResOK] at hr; rw [hr]; omega
-    | marketId m => simp only [ResOK] at hr; rw [hr]; omega
-
 /-- **IndexInv after every history** (from any state satisfying the invariant, as long as the order
 counter cannot wrap). -/
 theorem inv_run : ∀ (ops : List Op) (st : State), Inv st →
@@ -99,8 +78,6 @@ theorem inv_run : ∀ (ops : List Op) (st : State), Inv st →
     obtain ⟨h1, h2, _⟩ := inv_step (op := op) h (by omega)
     show Inv (run (step st op) ops)
     exact inv_run ops (step st op) h1 (by omega)
-
-theorem lastOrderID_init : getLastOrderID init.kv = 0 := rfl
 
 /-- Every open order has exactly its market / owner / asset (/ external-id) index entries, no index
 entry dangles, every payment is listed under its current target only — after ANY sequence of
@@ -329,5 +306,439 @@ theorem marketIds_never_reused : ∀ (ops : List Op) (st : State), Inv st →
 
 example : createdMarketIds init [.mkMarket 2 "a", .mkMarket 0 "b", .mkMarket 0 "c", .mkMarket 2 "d"] = [2, 1, 3] := by
   decide
+
+
+
+/-! ## Part B — what the lookups' prefix scans return -/
+
+/-- **By-market lookup: exactly the open orders of the market** … -/
+theorem byMarket_exact {s : Store} (hinv : IndexInv s) (m : UInt32) (id : UInt64) :
+    id ∈ (iterateOrderIndex s (prefixMarketToOrder m)).map (·.1) ↔
+      ∃ o, s.get (keyOrder id) = some (.order o) ∧ o.market = m := by
+  have hh := (indexInvF_iff.mp hinv).1
+  constructor
+  · intro h
+    obtain ⟨⟨id', b⟩, hmem, rfl⟩ := List.mem_map.mp h
+    obtain ⟨e, he, hv, hp⟩ := mem_iterateOrderIndex.mp hmem
+    obtain ⟨o, ho, hm⟩ := scan_entry_live hinv he rfl
+    rcases mem_orderIndexEntries.mp hm with hq | hq | hq | ⟨_, hq⟩ <;>
+      simp [prefixMarketToOrder, idxMarketToOrder, idxAddressToOrder, idxAssetToOrder, idxMarketExternalIDToOrder] at hq
+    obtain ⟨hk, _⟩ := hq
+    have := u32_append_inj hk
+    rw [this.2, parseIndexKeySuffixOrderID_u64Bz] at hp
+    cases hp
+    exact ⟨o, ho, this.1.symm⟩
+  · rintro ⟨o, ho, rfl⟩
+    have hid := hh.record_id ho
+    subst hid
+    have := hh.indexed o.id o ho _ (mem_orderIndexEntries.mpr (Or.inl rfl))
+    refine List.mem_map.mpr ⟨(o.id, o.tb), mem_iterateOrderIndex.mpr ⟨(u64Bz o.id, .tbyte o.tb), ?_, rfl,
+      parseIndexKeySuffixOrderID_u64Bz _⟩, rfl⟩
+    rw [mem_prefixStore]
+    exact this
+
+/-- **By-owner lookup: exactly the open orders of the owner.** -/
+theorem byOwner_exact {s : Store} (hinv : IndexInv s) (a : Bytes) (id : UInt64) :
+    id ∈ (iterateOrderIndex s (prefixAddressToOrder a)).map (·.1) ↔
+      ∃ o, s.get (keyOrder id) = some (.order o) ∧ o.owner = a := by
+  have hh := (indexInvF_iff.mp hinv).1
+  constructor
+  · intro h
+    obtain ⟨⟨id', b⟩, hmem, rfl⟩ := List.mem_map.mp h
+    obtain ⟨e, he, hv, hp⟩ := mem_iterateOrderIndex.mp hmem
+    obtain ⟨o, ho, hm⟩ := scan_entry_live hinv he rfl
+    rcases mem_orderIndexEntries.mp hm with hq | hq | hq | ⟨_, hq⟩ <;>
+      simp [prefixAddressToOrder, idxMarketToOrder, idxAddressToOrder, idxAssetToOrder, idxMarketExternalIDToOrder] at hq
+    obtain ⟨hk, _⟩ := hq
+    have := lengthPrefix_append_inj hk
+    rw [this.2, parseIndexKeySuffixOrderID_u64Bz] at hp
+    cases hp
+    exact ⟨o, ho, this.1.symm⟩
+  · rintro ⟨o, ho, rfl⟩
+    have hid := hh.record_id ho
+    subst hid
+    have := hh.indexed o.id o ho _ (mem_orderIndexEntries.mpr (Or.inr (Or.inl rfl)))
+    refine List.mem_map.mpr ⟨(o.id, o.tb), mem_iterateOrderIndex.mpr ⟨(u64Bz o.id, .tbyte o.tb), ?_, rfl,
+      parseIndexKeySuffixOrderID_u64Bz _⟩, rfl⟩
+    rw [mem_prefixStore]
+    exact this
+
+/-- **By-asset lookup: what it REALLY returns** — the open orders whose asset denom STARTS WITH the
+queried denom (the index key is `0x05 | denom | id` with no terminator and the id is read from the
+last 8 bytes). -/
+theorem byAsset_lists_prefix_denoms {s : Store} (hinv : IndexInv s) (d : Bytes) (id : UInt64) :
+    id ∈ (iterateOrderIndex s (prefixAssetToOrder d)).map (·.1) ↔
+      ∃ o, s.get (keyOrder id) = some (.order o) ∧ d <+: o.assetDenom := by
+  have hh := (indexInvF_iff.mp hinv).1
+  constructor
+  · intro h
+    obtain ⟨⟨id', b⟩, hmem, rfl⟩ := List.mem_map.mp h
+    obtain ⟨e, he, hv, hp⟩ := mem_iterateOrderIndex.mp hmem
+    obtain ⟨o, ho, hm⟩ := scan_entry_live hinv he rfl
+    have hlen : 8 ≤ e.1.length := by
+      unfold parseIndexKeySuffixOrderID at hp
+      split_ifs at hp with h8
+      omega
+    rcases mem_orderIndexEntries.mp hm with hq | hq | hq | ⟨_, hq⟩ <;>
+      simp [prefixAssetToOrder, idxMarketToOrder, idxAddressToOrder, idxAssetToOrder, idxMarketExternalIDToOrder] at hq
+    obtain ⟨hk, _⟩ := hq
+    -- d ++ e.1 = denom ++ id bytes, with at least 8 bytes in e.1: d is a prefix of the denom
+    rcases List.append_eq_append_iff.mp hk with ⟨t, hden, he1⟩ | ⟨c, hd, hid⟩
+    · rw [he1, parseIndexKeySuffixOrderID_append] at hp
+      cases hp
+      exact ⟨o, ho, ⟨t, hden.symm⟩⟩
+    · have hc : c = [] := by
+        have := congrArg List.length hid
+        simp only [u64Bz_length, List.length_append] at this
+        exact List.eq_nil_of_length_eq_zero (by omega)
+      subst hc
+      simp only [List.nil_append, List.append_nil] at hid hd
+      rw [← hid, parseIndexKeySuffixOrderID_u64Bz] at hp
+      cases hp
+      exact ⟨o, ho, ⟨[], by simp [hd]⟩⟩
+  · rintro ⟨o, ho, ⟨t, hden⟩⟩
+    have hid := hh.record_id ho
+    subst hid
+    have := hh.indexed o.id o ho _ (mem_orderIndexEntries.mpr (Or.inr (Or.inr (Or.inl rfl))))
+    refine List.mem_map.mpr ⟨(o.id, o.tb), mem_iterateOrderIndex.mpr ⟨(t ++ u64Bz o.id, .tbyte o.tb), ?_, rfl,
+      parseIndexKeySuffixOrderID_append _ _⟩, rfl⟩
+    rw [mem_prefixStore]
+    simp only [prefixAssetToOrder, idxAssetToOrder, ← hden, List.cons_append, List.append_assoc] at this ⊢
+    exact this
+
+/-- Full statement that the code does NOT satisfy:
+`∀ s, IndexInv s → ∀ d id, id listed for d ↔ ∃ o, live o at id ∧ o.assetDenom = d`.
+**byAsset_exact_partial**: it holds when no open order's asset denom has `d` as a PROPER prefix. -/
+theorem byAsset_exact_partial {s : Store} (hinv : IndexInv s) (d : Bytes)
+    (hnp : ∀ i o, s.get (keyOrder i) = some (.order o) → d <+: o.assetDenom → o.assetDenom = d) (id : UInt64) :
+    id ∈ (iterateOrderIndex s (prefixAssetToOrder d)).map (·.1) ↔
+      ∃ o, s.get (keyOrder id) = some (.order o) ∧ o.assetDenom = d := by
+  rw [byAsset_lists_prefix_denoms hinv]
+  constructor
+  · rintro ⟨o, ho, hp⟩; exact ⟨o, ho, hnp id o ho hp⟩
+  · rintro ⟨o, ho, rfl⟩; exact ⟨o, ho, List.prefix_refl _⟩
+
+/-- the history of the witness: one market, an ask for `apple` (order 1), an ask for `apples` (order 2) -/
+def appleHistory : List Op :=
+  [.mkMarket 0 "m",
+   .create ⟨0, false, 1, [65], [97, 112, 112, 108, 101], 5, [117, 115, 100], 10, [], true⟩,
+   .create ⟨0, false, 1, [65], [97, 112, 112, 108, 101, 115], 5, [117, 115, 100], 10, [], true⟩]
+
+/-- **byAsset_not_exact**: the by-asset lookup is NOT exact.  After `appleHistory` the scan for asset
+`apple` lists order 2, whose asset denom is `apples`.  Replayed on the implementation
+(corpus/C13, known finding C13-asset-prefix). -/
+theorem byAsset_not_exact :
+    ¬ ∀ (ops : List Op) (d : Bytes) (id : UInt64),
+      id ∈ (iterateOrderIndex (run init ops).kv (prefixAssetToOrder d)).map (·.1) →
+      ∃ o, getOrderFromStore (run init ops).kv id = some o ∧ o.assetDenom = d := by
+  intro h
+  have h2 := h appleHistory [97, 112, 112, 108, 101] 2 (by decide)
+  revert h2
+  decide
+
+/-- the hypothesis of `byAsset_exact_partial` is met e.g. by the same store queried for `apples` -/
+example : ∀ i ∈ [1, 2], ∀ o, getOrderFromStore (run init appleHistory).kv i = some o →
+    [97, 112, 112, 108, 101, 115] <+: o.assetDenom → o.assetDenom = [97, 112, 112, 108, 101, 115] := by decide
+
+/-- each of the three lookups lists an open order at most once -/
+theorem byMarket_once {s : Store} (hinv : IndexInv s) (m : UInt32) :
+    ((iterateOrderIndex s (prefixMarketToOrder m)).map (·.1)).Nodup :=
+  lookup_ids_nodup hinv _ (fun _ => rfl) (by simp [prefixMarketToOrder])
+
+theorem byOwner_once {s : Store} (hinv : IndexInv s) (a : Bytes) :
+    ((iterateOrderIndex s (prefixAddressToOrder a)).map (·.1)).Nodup :=
+  lookup_ids_nodup hinv _ (fun _ => rfl) (by simp [prefixAddressToOrder])
+
+theorem byAsset_once {s : Store} (hinv : IndexInv s) (d : Bytes) :
+    ((iterateOrderIndex s (prefixAssetToOrder d)).map (·.1)).Nodup :=
+  lookup_ids_nodup hinv _ (fun _ => rfl) (by simp [prefixAssetToOrder])
+
+/-- `GetOrder`: an order is fetched by id iff its record is stored -/
+theorem getOrder_iff {s : Store} (hinv : IndexInv s) (id : UInt64) (o : Order) :
+    getOrderFromStore s id = some o ↔ s.get (keyOrder id) = some (.order o) :=
+  ⟨fun h => (getOrderFromStore_eq (indexInvF_iff.mp hinv).1 h).1,
+   fun h => getOrderFromStore_of_get h ((indexInvF_iff.mp hinv).1.record_id h)⟩
+
+/-! ## Part C — paging through a listing -/
+
+/-- **pages_partition, key mode.**  `ps`: any strictly sorted prefix-store content; `limit ≥ 1`; any hit
+filter (order type, parsable id); any after-order bound; either direction.  Requesting the first page
+without a key and then following `next_key` until it is empty returns the concatenation
+`(firstIter ps rev after).filter hit`: every matching entry of the iteration range exactly once, in
+iteration order — and it stops within `length + 1` requests (no panic, no error).  The hypothesis
+`hne` (a hit never has the empty key) holds for every order index because a hit needs 8 id bytes
+(`indexHit_key_ne_nil`). -/
+theorem pages_partition_key (ps : List Entry) (hs : Sorted ps) (limit : Nat) (hl : 1 ≤ limit) (rev : Bool)
+    (after : UInt64) (hit : Entry → Bool) (hne : ∀ e ∈ ps, hit e = true → e.1 ≠ []) :
+    collectByKey ps limit rev after hit (ps.length + 1) none = .ok ((firstIter ps rev after).filter hit) := by
+  unfold collectByKey
+  have hp := page_without_key hit ps 0 limit false rev after hl
+  simp only [Bool.false_eq_true, ↓reduceIte, Nat.zero_add, List.drop_zero] at hp
+  rw [show ({ key := none, limit := limit, reverse := rev } : PageReq) =
+    { offset := 0, limit := limit, countTotal := false, reverse := rev } from rfl, hp]
+  simp only
+  cases hd : ((firstIter ps rev after).filter hit).drop limit with
+  | nil =>
+    simp only [List.head?_nil, Option.map_none]
+    rw [List.take_of_length_le (List.drop_eq_nil_iff.mp hd)]
+  | cons h' rest =>
+    simp only [List.head?_cons, Option.map_some]
+    obtain ⟨pre, post, hL, hp', hh', hpost⟩ := split_at_hit hit _ limit h' rest hd
+    have hsub : ∀ e ∈ firstIter ps rev after, e ∈ ps := by
+      intro e he
+      unfold firstIter iter at he
+      split_ifs at he
+      · exact (List.mem_filter.mp (List.mem_reverse.mp he)).1
+      · exact (List.mem_filter.mp he).1
+    have hk' : h'.1 ≠ [] := hne h' (hsub h' (by rw [hL]; simp)) hh'
+    obtain ⟨b, r, hbr⟩ : ∃ b r, h'.1 = b :: r := by
+      cases hh2 : h'.1 with
+      | nil => exact absurd hh2 hk'
+      | cons b r => exact ⟨b, r, rfl⟩
+    have hpre : pre ≠ [] := by
+      intro e
+      subst e
+      have hlen2 := congrArg List.length hd
+      have := congrArg List.length hp'
+      simp only [List.filter_nil, List.length_nil, List.length_take, List.length_drop, List.length_cons] at this hlen2
+      omega
+    have hlen : (h' :: post).length ≤ ps.length := by
+      have h1 := firstIter_length_le ps rev after
+      have h2 := congrArg List.length hL
+      have h3 : pre.length ≥ 1 := List.length_pos_iff.mpr hpre
+      simp only [List.length_append, List.length_cons] at h2 ⊢
+      omega
+    have := collectByKey_suffix hit ps hs limit hl rev after hne ps.length pre post h' hL hh' (fun _ => hpre) hlen
+    rw [hbr] at this ⊢
+    simp only
+    rw [this]
+    simp only [Except.ok.injEq]
+    have hf : (h' :: post).filter hit = ((firstIter ps rev after).filter hit).drop limit := by
+      rw [hd, List.filter_cons, hh', if_pos rfl, hpost]
+    rw [hf, List.take_append_drop]
+
+/-- **pages_partition, offset mode.**  Requesting offsets `0, limit, 2·limit, …` while a `next_key` is
+reported returns the same listing: every matching entry exactly once, in order. -/
+theorem pages_partition_offset (ps : List Entry) (limit : Nat) (hl : 1 ≤ limit) (rev : Bool)
+    (after : UInt64) (hit : Entry → Bool) (hne : ∀ e ∈ firstIter ps rev after, hit e = true → e.1 ≠ []) :
+    collectByOffset ps limit rev after hit (((firstIter ps rev after).filter hit).length + 1) 0 =
+      .ok ((firstIter ps rev after).filter hit) := by
+  have := collectByOffset_from hit ps limit hl rev after hne (((firstIter ps rev after).filter hit).length + 1) 0
+    (by simp)
+  simpa using this
+
+/-- every single request: at most `limit` entries — exactly hits number `offset … offset+limit-1` —, a
+`next_key` iff there is a further hit, and (when asked) the number of all hits as total -/
+theorem page_contents (ps : List Entry) (offset limit : Nat) (ct rev : Bool) (after : UInt64) (hit : Entry → Bool)
+    (hl : 1 ≤ limit) :
+    filteredPaginateAfterOrder ps { offset := offset, limit := limit, countTotal := ct, reverse := rev } after hit =
+      .ok ((((firstIter ps rev after).filter hit).drop offset).take limit,
+        { nextKey := ((((firstIter ps rev after).filter hit).drop (offset + limit)).head?).map (·.1),
+          total := if ct then ((firstIter ps rev after).filter hit).length else 0 }) :=
+  page_without_key hit ps offset limit ct rev after hl
+
+/-- the hit filter of the order indexes never accepts an empty key (it needs the 8 id bytes) -/
+theorem indexHit_key_ne_nil (filter : Option Nat) (e : Entry) (h : indexHit filter e = true) : e.1 ≠ [] := by
+  intro hk
+  unfold indexHit parseIndexKeySuffixOrderID at h
+  simp [hk] at h
+
+/-- the iteration range is ordered: ascending keys forward, descending keys in reverse -/
+theorem firstIter_sorted (ps : List Entry) (hs : Sorted ps) (after : UInt64) :
+    Sorted (firstIter ps false after) ∧ Sorted (firstIter ps true after).reverse := by
+  unfold firstIter iter
+  simp only [Bool.false_eq_true, ↓reduceIte, List.reverse_reverse]
+  exact ⟨hs.filter _, hs.filter _⟩
+
+/-- **The after-order bound is exact** for `after_order_id < MaxUint64`: an entry keyed by the 8 id bytes
+is in the iteration range iff its id is greater than `after` (`after = 0`: no bound). -/
+theorem after_bound_exact (ps : List Entry) (rev : Bool) (after : UInt64) (hmax : after ≠ 18446744073709551615)
+    (e : Entry) (id : UInt64) (hk : e.1 = u64Bz id) :
+    e ∈ firstIter ps rev after ↔ e ∈ ps ∧ (after = 0 ∨ after < id) := by
+  have hadd : (after + 1).toNat = after.toNat + 1 := by
+    have h1 := UInt64.toNat_lt after
+    have h2 : after.toNat ≠ 18446744073709551615 := fun h => hmax (UInt64.toNat_inj.mp h)
+    rw [UInt64.toNat_add]
+    have : (1 : UInt64).toNat = 1 := rfl
+    rw [this]; omega
+  have hin : ∀ r : Bool, inRange (lowerBound r after) none e.1 = true ↔ (after = 0 ∨ after < id) := by
+    intro r
+    unfold lowerBound
+    by_cases h0 : after = 0
+    · simp [h0, inRange]
+    · have : (if r = true then after + 1 else if after ≠ 18446744073709551615 then after + 1 else after) = after + 1 := by
+        cases r <;> simp [hmax]
+      simp only [ne_eq, h0, not_false_eq_true, ↓reduceIte, this, inRange_some_none, hk, u64Bz_le_iff, false_or]
+      rw [UInt64.le_iff_toNat_le, UInt64.lt_iff_toNat_lt, hadd]
+      omega
+  unfold firstIter iter
+  cases rev
+  · simp only [Bool.false_eq_true, ↓reduceIte, List.mem_filter, hin false]
+  · simp only [↓reduceIte, List.mem_reverse, List.mem_filter, hin true]
+
+/-- FALSE for `after_order_id = MaxUint64` in reverse: `afterOrderID + 1` wraps to 0 (orders.go:424), so
+the reverse listing "after the greatest id" returns every order, while the forward one (guarded at
+orders.go:433) returns none.  Replayed on the implementation (known finding C13-after-max-reverse). -/
+theorem after_max_reverse_lists_all :
+    firstIter [(u64Bz 1, .tbyte 0), (u64Bz 2, .tbyte 1)] true 18446744073709551615 =
+      [(u64Bz 2, .tbyte 1), (u64Bz 1, .tbyte 0)] ∧
+    firstIter [(u64Bz 1, .tbyte 0), (u64Bz 2, .tbyte 1)] false 18446744073709551615 = [] := by
+  decide
+
+/-- non-vacuity of the paging theorems: three entries, limit 1 and 2, both directions, type filter -/
+example : (collectByKey [(u64Bz 1, .tbyte 0), (u64Bz 2, .tbyte 1), (u64Bz 5, .tbyte 0)] 1 true 1
+    (indexHit (some 0)) 4 none).toOption = some [(u64Bz 5, .tbyte 0)] := by decide
+example : (collectByOffset [(u64Bz 1, .tbyte 0), (u64Bz 2, .tbyte 1), (u64Bz 5, .tbyte 0)] 2 false 0
+    (indexHit none) 4 0).toOption = some [(u64Bz 1, .tbyte 0), (u64Bz 2, .tbyte 1), (u64Bz 5, .tbyte 0)] := by decide
+
+
+/-- **The paged by-market lookup, end to end**: on a store satisfying the invariant, for every limit ≥ 1,
+order-type filter, after-order bound below MaxUint64 and direction, following `next_key` through the
+market index returns entries `L` with: an entry is in `L` iff it is the market-index entry of an open
+order of that market with the requested type and an id above the bound — each once (`L` has pairwise
+different keys), ascending by id or descending. -/
+theorem byMarket_paged_exact {s : Store} (hinv : IndexInv s) (m : UInt32) (limit : Nat) (hl : 1 ≤ limit)
+    (rev : Bool) (after : UInt64) (hmax : after ≠ 18446744073709551615) (filter : Option Nat) :
+    ∃ L, collectByKey (prefixStore s (prefixMarketToOrder m)) limit rev after (indexHit filter)
+        ((prefixStore s (prefixMarketToOrder m)).length + 1) none = .ok L ∧
+      L.Pairwise (fun a b => a.1 ≠ b.1) ∧
+      ∀ e, e ∈ L ↔ ∃ o, s.get (keyOrder o.id) = some (.order o) ∧ o.market = m ∧
+        e = (u64Bz o.id, .tbyte o.tb) ∧ (∀ b, filter = some b → o.tb = b) ∧ (after = 0 ∨ after < o.id) := by
+  have hh := (indexInvF_iff.mp hinv).1
+  have hs := sorted_prefixStore s (prefixMarketToOrder m)
+  refine ⟨_, pages_partition_key _ hs limit hl rev after (indexHit filter)
+    (fun e _ h => indexHit_key_ne_nil filter e h), ?_, fun e => ?_⟩
+  · -- pairwise different keys: a sublist (or reversed sublist) of a strictly sorted list
+    have hne : ∀ {l : List Entry}, Sorted l → l.Pairwise (fun a b => a.1 ≠ b.1) :=
+      fun h => h.imp (fun hlt e => by rw [e, bytesLt_irrefl] at hlt; cases hlt)
+    obtain ⟨h1, h2⟩ := firstIter_sorted _ hs after
+    cases rev
+    · exact (hne h1).filter _
+    · have := (hne h2)
+      rw [List.pairwise_reverse] at this
+      exact (this.imp (fun h => Ne.symm h)).filter _
+  · rw [List.mem_filter]
+    constructor
+    · rintro ⟨hmem, hhit⟩
+      have hps : e ∈ prefixStore s (prefixMarketToOrder m) := by
+        unfold firstIter iter at hmem
+        split_ifs at hmem
+        · exact (List.mem_filter.mp (List.mem_reverse.mp hmem)).1
+        · exact (List.mem_filter.mp hmem).1
+      obtain ⟨o, ho, hm⟩ := scan_entry_live hinv hps rfl
+      rcases mem_orderIndexEntries.mp hm with hq | hq | hq | ⟨_, hq⟩ <;>
+        simp [prefixMarketToOrder, idxMarketToOrder, idxAddressToOrder, idxAssetToOrder, idxMarketExternalIDToOrder] at hq
+      obtain ⟨hk, hv⟩ := hq
+      have hkk := u32_append_inj hk
+      have he : e = (u64Bz o.id, .tbyte o.tb) := Prod.ext hkk.2 hv
+      refine ⟨o, ho, hkk.1.symm, he, ?_, ?_⟩
+      · intro b hb
+        subst hb he
+        have : o.tb = b ∧ (parseIndexKeySuffixOrderID (u64Bz o.id)).isSome = true := by
+          simpa [indexHit] using hhit
+        exact this.1
+      · exact ((after_bound_exact _ rev after hmax e o.id hkk.2).mp hmem).2
+    · rintro ⟨o, ho, rfl, rfl, hf, ha⟩
+      have hps : (u64Bz o.id, Val.tbyte o.tb) ∈ prefixStore s (prefixMarketToOrder o.market) := by
+        rw [mem_prefixStore]
+        exact hh.indexed o.id o ho _ (mem_orderIndexEntries.mpr (Or.inl rfl))
+      refine ⟨(after_bound_exact _ rev after hmax _ o.id rfl).mpr ⟨hps, ha⟩, ?_⟩
+      unfold indexHit
+      simp only [parseIndexKeySuffixOrderID_u64Bz, Option.isSome_some, Bool.and_true]
+      cases filter with
+      | none => rfl
+      | some b => simp [hf b rfl]
+
+/-! ### the SDK's `FilteredPaginate` / `Paginate` (GetAllOrders, payments, commitments) -/
+
+/-- With no filter, the SDK's `FilteredPaginate` (and `Paginate`, the same loops) is
+`filteredPaginateAfterOrder` without an after-order bound — so `pages_partition_key` /
+`pages_partition_offset` apply to GetAllOrders and to the payment and commitment listings as long as
+no listed key is empty. -/
+theorem sdkFilteredPaginate_all_eq (ps : List Entry) (req : PageReq) (hk : req.key ≠ some []) :
+    sdkFilteredPaginate ps req (fun _ => true) = filteredPaginateAfterOrder ps req 0 (fun _ => true) := by
+  unfold sdkFilteredPaginate filteredPaginateAfterOrder sdkGetIterator getOrderIterator
+  have hkey : (match req.key with | some [] => none | k => k) = req.key := by
+    split
+    · next h => exact absurd h hk
+    · rfl
+  simp only [hkey]
+  cases hkk : req.key with
+  | none => cases req.reverse <;> simp [reverseEnd]
+  | some k =>
+    have hne : k ≠ [] := fun e => hk (by rw [hkk, e])
+    have h1 : ¬ (some k = none ∨ some k = some []) := by
+      rintro (h | h)
+      · cases h
+      · exact hne (Option.some.inj h)
+    have hm : (match some k with | some [] => none | x => x) = some k := by
+      split
+      · next h => exact absurd (Option.some.inj h) hne
+      · rfl
+    cases req.reverse
+    · simp [hne, sdkKeyLoop_all]
+    · simp only [hne, sdkKeyLoop_all, ↓reduceIte, Option.some.injEq, reduceCtorEq, false_or, ne_eq,
+        not_false_eq_true, and_true, not_true_eq_false, and_false]
+
+/-- Full statement that the code does NOT satisfy: following `next_key` through any payment listing
+returns every payment once.  FALSE for `GetPaymentsWithSource` in reverse: the key of a payment with the
+EMPTY external id is the empty suffix of the `0x70 | len | source` prefix store, so when it is the next
+entry the response's `next_key` is empty — "no more pages".  Witness: payments `""`, `"a"`, `"b"` of
+one source, reverse, limit 2: the client receives `b, a` and stops.  Replayed on the implementation
+(known finding C13-paysrc-empty-extid). -/
+theorem paysrc_reverse_paging_skips_empty_external_id :
+    let ps : List Entry := [([], .empty), ([97], .empty), ([98], .empty)]
+    (collectByKey ps 2 true 0 (fun _ => true) 4 none).toOption = some [([98], .empty), ([97], .empty)] ∧
+    (collectByKey ps 2 false 0 (fun _ => true) 4 none).toOption = some ps := by
+  decide
+
+/-- **sdk_pages_partition_partial**: the payment / commitment / all-orders listings page correctly when no
+listed key is empty (true of every listing except a source's payments when one has the empty external
+id). -/
+theorem sdk_pages_partition_partial (ps : List Entry) (hs : Sorted ps) (limit : Nat) (hl : 1 ≤ limit) (rev : Bool)
+    (hne : ∀ e ∈ ps, e.1 ≠ []) :
+    collectByKey ps limit rev 0 (fun _ => true) (ps.length + 1) none = .ok (if rev then ps.reverse else ps) := by
+  have := pages_partition_key ps hs limit hl rev 0 (fun _ => true) (fun e he _ => hne e he)
+  rw [this]
+  unfold firstIter lowerBound iter
+  cases rev <;> simp [inRange]
+
+
+/-! ### `nextMarketID` terminates with an unused id -/
+
+/-- **`nextMarketID` (market.go:37) terminates and returns an id that is not in use**, as long as fewer than
+2^32 markets exist: `knownMarketCount + 1` iterations of the (unbounded in Go) loop always suffice. -/
+theorem nextMarketID_unused (s : Store) (hc : knownMarketCount s < 2 ^ 32) :
+    isMarketKnown s (nextMarketID s).2 = false := by
+  unfold nextMarketID isMarketKnown
+  simp only
+  rcases nextMarketIDLoop_spec s (knownMarketCount s + 1) (getLastAutoMarketID s + 1) with h | h
+  · exact h
+  · exfalso
+    -- knownMarketCount + 1 different known ids among knownMarketCount entries
+    let m := getLastAutoMarketID s + 1
+    let L := (List.range (knownMarketCount s + 1)).map (fun i => keyKnownMarketID (m + UInt32.ofNat i))
+    let K := (s.entries.filter (fun e => prefixKnownMarket.isPrefixOf e.1)).map Prod.fst
+    have hnd : L.Nodup := by
+      refine List.Nodup.map_on ?_ List.nodup_range
+      intro i hi j hj e
+      have hi' := List.mem_range.mp hi
+      have hj' := List.mem_range.mp hj
+      have e2 := keyKnownMarketID_inj.mp e
+      have := congrArg UInt32.toNat e2
+      simp only [UInt32.toNat_add, UInt32.toNat_ofNat'] at this
+      omega
+    have hsub : L ⊆ K := by
+      intro k hk
+      obtain ⟨i, hi, rfl⟩ := List.mem_map.mp hk
+      obtain ⟨v, hv⟩ := (has_iff _ _).mp (h i (List.mem_range.mp hi))
+      exact List.mem_map.mpr ⟨(_, v), List.mem_filter.mpr ⟨(mem_entries_iff s _ _).mpr hv, by
+        simp [prefixKnownMarket, keyKnownMarketID, List.isPrefixOf]⟩, rfl⟩
+    have hlen := List.Nodup.length_le_of_subset hnd hsub
+    simp only [L, K, List.length_map, List.length_range] at hlen
+    unfold knownMarketCount at hlen hc
+    omega
+
+example : (nextMarketID (run init [.mkMarket 1 "a", .mkMarket 2 "b"]).kv).2 = 3 := by decide
 
 end PvProofs.C13
